@@ -49,6 +49,8 @@ pub struct StyleSheetTransformer {
 
 impl StyleSheetTransformer {
     pub fn from_css(path: &str, css: &str, options: StyleSheetOptions) -> Self {
+        // a byte order mark is an artefact of the file encoding, not a part of the first rule
+        let css = css.strip_prefix('\u{feff}').unwrap_or(css);
         let parser_input = &mut ParserInput::new(css);
         let parser = &mut cssparser::Parser::new(parser_input);
         let mut input = StepParser::wrap(parser);
